@@ -228,17 +228,21 @@ Print Assumptions null_when_exhausted.
 
 Lemma next_address_null fuel r i : d_src (get_dev (rn r) i) = 254 -> next_address (S fuel) r i false = r.
 Proof. intros E. cbn [next_address]. change c_N2kNullCanBusAddress with 254. rewrite E. reflexivity. Qed.
-Lemma lose_null : forall n r i, d_src (get_dev (rn r) i) = 254 -> lose n r i = r.
-Proof. induction n as [|n IH]; intros r i E; cbn [lose]; [reflexivity|]. rewrite (next_address_null 299 r i E). apply IH; exact E. Qed.
+Lemma next_address_null300 r i : d_src (get_dev (rn r) i) = 254 -> next_address 300 r i false = r.
+Proof. apply (next_address_null 299). Qed.
+Lemma losses_null i n r r' : after_losses i n r r' -> d_src (get_dev (rn r) i) = 254 -> r' = r.
+Proof.
+  intros Hl. induction Hl as [r|n r r' Hl IH]; intros E; [reflexivity|].
+  pose proof (next_address_null300 r i E) as X. rewrite X in IH. apply IH; exact E.
+Qed.
 
 Theorem exhausted_run : exhausted_run_stmt.
 Proof.
-  unfold exhausted_run_stmt. intros r k n. revert r.
-  induction n as [|n IH]; intros r Hk Ha He Hn; [pose proof (dist_range (lib_src r k) (d_claim_end (lib_dev r k))); lia|].
-  cbn [lose]. destruct (null_when_exhausted r k Hk Ha He) as (_ & Hc & Hend & _ & C). cbv zeta in *.
-  set (r' := next_address 300 r (Z.of_nat k) false) in *.
+  unfold exhausted_run_stmt. intros r k n r' Hk Ha He Hl. revert Hk Ha He.
+  induction Hl as [r|n r r' Hl IH]; intros Hk Ha He Hn; [pose proof (dist_range (lib_src r k) (d_claim_end (lib_dev r k))); lia|].
+  destruct (null_when_exhausted r k Hk Ha He) as (_ & Hc & Hend & _ & C). cbv zeta in *.
   destruct C as [[Z1 _]|(j & J1 & J2 & _ & _ & J5)].
-  - rewrite lose_null; [exact Z1|exact Z1].
+  - rewrite (losses_null _ _ _ _ Hl Z1). exact Z1.
   - apply IH.
     + rewrite Hc. exact Hk.
     + rewrite J2. pose proof (Z.mod_pos_bound (lib_src r k + j) 252). lia.
